@@ -968,6 +968,9 @@ func (a *typedArrayObject) exportToArrayOrSlice(dst reflect.Value, typ reflect.T
 }
 
 func (a *typedArrayObject) export(_ *objectExportCtx) interface{} {
+	if a.viewedArrayBuf.detached {
+		return a.typedArray.export(0, 0)
+	}
 	return a.typedArray.export(a.offset, a.length)
 }
 
